@@ -1712,6 +1712,20 @@ def _r_cif_objects(a, W):
         block = cif.Block("fallback", content, comment=a["comment"], schema=schema)
     extra = {"e.k": "v"}
     W.call(_CF + "Block.add", block.add, extra, comment="added", watch=mine)
+    # a ready-made Chunk / Loop handed over together with a comment: the caller's object (which other
+    # blocks may hold as well) keeps its own comment (seeded C09-s12)
+    ready_chunk = cif.Chunk({"r.k": 1}, comment="the chunk's own comment")
+    ready_loop = cif.Loop({"r.col": sc.arange("row", 3, unit=None)}, comment="")
+    other = cif.Block("other", [ready_chunk, ready_loop])
+    before_other = _render_block(other)
+    W.call(_CF + "Block.add", block.add, ready_chunk, comment="given at add()",
+           watch={**mine, "ready_chunk": ready_chunk})
+    W.call(_CF + "Block.add", block.add, ready_loop, comment="given at add()",
+           watch={**mine, "ready_loop": ready_loop})
+    if (ready_chunk.comment, ready_loop.comment) != ("the chunk's own comment", "") or _render_block(other) != before_other:
+        raise Violation("argument-modified", f"Block.add(<Chunk/Loop instance>, comment=...) changed the caller's object: "
+                                             f"comments now {ready_chunk.comment!r}, {ready_loop.comment!r}; another "
+                                             f"block holding them now writes a different file")
     me = {"self": block, **mine}
     W.call(_CF + "Block.name", lambda: block.name, watch=me)
     W.call(_CF + "Block.comment", lambda: block.comment, watch=me)
@@ -1854,6 +1868,14 @@ def _r_cif_builder(a, W):
     W.call(_CF + "save_cif", cif.save_cif, io.StringIO(), c6, comment=a["save_comment"],
            out=(0,), watch=live)
     W.call(_CF + "CIF.save", c0.save, io.StringIO(), out=(0,), watch=live)
+    # a save that fails (the directory does not exist) must leave the builder as it was, one-off
+    # comment included (seeded C09-s14: set comment, save, restore -- without try/finally)
+    comment_before = c6.comment
+    W.call(_CF + "save_cif", cif.save_cif, "/nonexistent-directory-vf/sub/out.cif", c6, comment="one-off comment",
+           watch=live, allowed=(OSError,))
+    if c6.comment != comment_before:
+        raise Violation("argument-modified", f"a failed save_cif(path, builder, comment='one-off comment') left the "
+                                             f"builder's comment at {c6.comment!r} (was {comment_before!r})")
 
 _SQ = "io.sqw."
 
@@ -2833,6 +2855,82 @@ def check_cif_repeat(case):
                 {"first": texts[0][-600:], "later": t[-600:]})
     return labels, bool(case["people"])
 
+
+# ----------------------------------------------------------------------------- quadrature histories
+
+_QUAD_SCRIPT = r"""
+import json, sys
+sys.path.insert(0, sys.argv[1])
+import scipp as sc
+from scippneutron.absorption import Cylinder
+
+def mk(c):
+    return Cylinder(sc.vector(c["axis"]), sc.vector(c["base"], unit="m"),
+                    sc.scalar(float(c["r"]), unit="m"), sc.scalar(float(c["h"]), unit="m"))
+
+spec = json.loads(sys.argv[2])
+out = []
+for c in spec["cyls"]:
+    pts, w = mk(c).quadrature(spec["kind"])
+    out.append({"p": [[float(x).hex() for x in row] for row in pts.values.tolist()],
+                "w": [float(x).hex() for x in w.values.tolist()]})
+print(json.dumps(out))
+"""
+
+_QUAD_SIZES = [(1.0, 1.0), (1.0, 3.0), (1.0, 0.3), (2.0, 10.0), (5.0, 1.0), (0.01, 0.04), (1.0, 1.5), (3.0, 1.0)]
+_QUAD_AXES = [[0.0, 0.0, 1.0], [0.0, 1.0, 0.0], [0.6, 0.0, 0.8], [0.0, -0.6, -0.8]]
+
+
+@st.composite
+def s_quadrature_history(draw):
+    def cyl():
+        r, h = draw(st.sampled_from(_QUAD_SIZES))
+        return {"r": r, "h": h, "axis": draw(st.sampled_from(_QUAD_AXES)),
+                "base": [draw(st.sampled_from([0.0, 0.5, -2.0])) for _ in range(3)]}
+    return {"kind": draw(st.sampled_from(["cheap", "medium", "medium", "expensive"])),
+            "earlier": [cyl() for _ in range(draw(st.integers(1, 2)))], "last": cyl()}
+
+
+def _quad_in_fresh_interpreter(spec):
+    r = subprocess.run([sys.executable, "-c", _QUAD_SCRIPT, str(repo_src()), json.dumps(spec)],
+                       capture_output=True, text=True, env=dict(os.environ, OMP_NUM_THREADS="1"))
+    if r.returncode != 0:
+        raise HarnessError("fresh-interpreter quadrature failed:\n" + r.stderr[-1500:])
+    return json.loads(r.stdout.strip().splitlines()[-1])
+
+
+def check_quadrature_history(case):
+    """Cylinder.quadrature(kind) of a cylinder after other cylinders of other proportions have used the
+    same kind in this process equals, bit for bit, what a fresh interpreter computes for that cylinder
+    alone (seeded C09-s13: the assembled rule cached per kind although it depends on height/radius)."""
+    import scipp as sc
+    from scippneutron.absorption import Cylinder
+
+    def mk(c):
+        return Cylinder(sc.vector(c["axis"]), sc.vector(c["base"], unit="m"),
+                        sc.scalar(float(c["r"]), unit="m"), sc.scalar(float(c["h"]), unit="m"))
+
+    kind = case["kind"]
+    for c in case["earlier"]:
+        mk(c).quadrature(kind)
+    pts, w = mk(case["last"]).quadrature(kind)
+    fresh = _quad_in_fresh_interpreter({"kind": kind, "cyls": [case["last"]]})[0]
+    got_p = [[float(x).hex() for x in row] for row in pts.values.tolist()]
+    got_w = [float(x).hex() for x in w.values.tolist()]
+    labels = ["kind:" + kind, f"earlier:{len(case['earlier'])}"]
+    differs = any((c["r"], c["h"]) != (case["last"]["r"], case["last"]["h"]) for c in case["earlier"])
+    if differs:
+        labels.append("earlier-cylinder-of-other-proportions")
+    if len(got_w) != len(fresh["w"]):
+        raise Violation("history-dependent", f"Cylinder.quadrature({kind!r}) of r={case['last']['r']}, h={case['last']['h']} "
+                                             f"has {len(got_w)} points after {[(c['r'], c['h']) for c in case['earlier']]} "
+                                             f"used the same kind, {len(fresh['w'])} in a fresh interpreter")
+    if got_p != fresh["p"] or got_w != fresh["w"]:
+        raise Violation("history-dependent", f"Cylinder.quadrature({kind!r}) of r={case['last']['r']}, h={case['last']['h']} "
+                                             f"differs from a fresh interpreter after earlier calls with "
+                                             f"{[(c['r'], c['h']) for c in case['earlier']]}")
+    return labels, differs
+
 # ============================================================================= registry meta-check
 
 # module (relative to scippneutron) -> how public names are found ('all' = __all__)
@@ -3031,6 +3129,9 @@ FACETS = [
           quick=(2, 150), thorough=(16, 500), min_nontrivial=0.3,
           doc="CIF / Block builders: derived builders and setters must not change their "
               "ancestors; each builder saves what its own lineage says"),
+    Facet("hist_quadrature", check_quadrature_history, strategy=lambda tier: s_quadrature_history(),
+          quick=(3, 6), thorough=(16, 25), min_nontrivial=0.3,
+          doc="Cylinder.quadrature after other cylinders used the same kind vs a fresh interpreter"),
     Facet("cif_save_repeat", check_cif_repeat, strategy=lambda tier: s_cif_repeat(),
           quick=(1, 100), thorough=(4, 500), min_nontrivial=0.3,
           doc="saving the same builder repeatedly writes the same file (creation date masked)"),
